@@ -91,7 +91,11 @@ theorem step_self (sys : Sys) {s : State} {t : Tid} {th : Thread} (hth : s.threa
       refine ⟨_, hset _ _ _ rfl, rfl, rfl, Or.inl ?_, by done_tac⟩
       simp only [measure, hp, nextPhase]
       split <;> simp only [Phase.measure, Sub.cost] <;> omega
-  | put => exact ⟨_, hset _ _ _ rfl, rfl, rfl, Or.inl (by simp [measure, hp, Phase.measure]), by done_tac⟩
+  | put =>
+    simp only
+    split
+    · exact ⟨_, hset _ _ _ rfl, rfl, rfl, Or.inl (by simp [measure, hp, Phase.measure]), fun _ _ => rfl⟩
+    · exact ⟨_, hset _ _ _ rfl, rfl, rfl, Or.inl (by simp [measure, hp, Phase.measure]), by done_tac⟩
   | call r => exact ⟨_, hset _ _ _ rfl, rfl, rfl, Or.inl (by simp [measure, hp, Phase.measure]), by done_tac⟩
   | run pc sub =>
     simp only
@@ -164,7 +168,9 @@ theorem step_other (sys : Sys) {s : State} {t t' : Tid} (hne : t' ≠ t) :
     | idle =>
       simp only [stepIdle]
       cases lcLookup s.loaderCache th.ty <;> exact hset _ _ _ rfl
-    | put => exact hset _ _ _ rfl
+    | put =>
+      simp only
+      split <;> exact hset _ _ _ rfl
     | call r => exact hset _ _ _ rfl
     | run pc sub =>
       simp only
